@@ -619,6 +619,13 @@ def gen_scenario(prop, seed, tier, faults_enabled=None, nclients=None, segments_
         clutter = gen_clutter(rng, worlds, shadow_bias=1.0)
     else:
         clutter = gen_clutter(rng, worlds) if rng.random() < 0.8 else []
+    if prop == "C19":
+        # near-miss names: entries whose names CONTAIN a variable name but do not match the documented <var>_tp_* pattern
+        for n in names:
+            vs = tp_variables(worlds[n], programs[n]) + [st["var"] for st in worlds[n].get("stubs", [])]
+            for v in rng.sample(vs, min(len(vs), rng.randint(0, 3))):
+                clutter.append({"dir": worlds[n]["cwd"], "name": rng.choice([f"old_{v}_tp_gpa.txt", f"x{v}_tp_old.txt", f"{v}.tp.bak", f"{v}_tpx_gpa.txt"]),
+                                "kind": "file", "text": "T(K)\\P(GPa) 0.0 1.0\n0.0 9.9e+99 9.9e+99\n"})
     extra_paths = {e["path"] for e in extra}
     clutter = [c for c in clutter if f"{c['dir']}/{c['name']}" not in extra_paths]
     hs = HASH_SEEDS[tier]
